@@ -24,7 +24,7 @@ CONFIG = {
              '(reveals createdDirs); evaluations = schedules executed and judged; distinct_nontrivial = distinct switch '
              'sequences with >=1 pre-emption taken inside library code while another thread had an unfinished call'),
     'exhaustive_layer': 'single pre-emption at every lock operation and library file-system call x every other thread x every start thread, for each scenario whose layer was completed (single_layers_completed)',
-    'gates': ['schedules', 'single_preemption_runs', 'single_layers_completed', 'line_preemption_runs', 'pair_runs', 'pct_runs', 'random_runs', 'stress_builds',
+    'gates': ['observer_race_schedules', 'schedules', 'single_preemption_runs', 'single_layers_completed', 'line_preemption_runs', 'pair_runs', 'pct_runs', 'random_runs', 'stress_builds',
               'preemptions_taken', 'scenarios', 'clean_probes', 'rebuild_probes'],
     'assumptions': ['bounded: all single pre-emptions are enumerated for the scenarios visited; two pre-emptions, PCT '
                     'and random walks are samples; more than 3 threads only in free-running stress under the GIL'],
@@ -116,6 +116,47 @@ def setup_world(w, program, prior, parents, rng):
         sr = w.build(program, program['roots'][1], {}, label=1, threads=False)
         return not sr.divs
     return True
+
+
+def run_observer_races(sh, rng):
+    """directed: one thread builds a file below a NEW directory D and fails (or succeeds), the other thread only
+    LOOKS at D (is_dir / exists / list_dir / walk - answers not judged: they legitimately depend on the
+    interleaving); afterwards the root looks at D, builds another file below D and the usual probes follow
+    (next build, clean).  Looking must not change what exists.  ALL pairs of pre-emptions at lock/file-system
+    granularity in the thorough tier (sampled in quick), all single ones always."""
+    Fa = {'kind': 'bf', 'idx': 13, 'body': [['write', ''], ['raise', 'Fa']]}
+    Fok = {'kind': 'bf', 'idx': 10, 'body': [['q', 'read_text', 'in0', 'M'], ['write', '']]}
+    for worker_fails in (True, False):
+        for depth in (1, 2):
+            D = 'D' if depth == 1 else 'D/E'
+            looks = [['x', 'racyq', k, p] for p in ([D] if depth == 1 else ['D', D])
+                     for k in ('is_dir', 'exists', 'list_dir', 'walk')]
+            root = [['par', [[['bf', D + '/a', 'Fa' if worker_fails else 'Fok', {'catch': True}]], looks]],
+                    ['q', 'is_dir', D, 'M'], ['q', 'walk', '', 'M'],
+                    ['bf', D + '/b', 'Fok', {'catch': True}], ['q', 'list_dir', D, 'M']]
+            program = {'funcs': {'Fa': Fa, 'Fok': Fok}, 'roots': [root, []]}
+            with Scratch('r') as sc:
+                w = World(sc)
+                w.ext_write('in0', b'input zero')
+                tok = w.save()
+                try:
+                    s0, ok = run_schedule(sh, w, tok, program, {'kind': 'none', 'grain': 'ops'}, 'observer-baseline')
+                    if not ok:
+                        continue
+                    n = s0.step
+                    strategies = [{'kind': 'preempt', 'at': {k: 0}, 'first': f, 'grain': 'ops'}
+                                  for f in (0, 1) for k in range(1, n + 1)]
+                    pairs = [{'kind': 'preempt', 'at': {k1: 0, k2: 0}, 'first': f, 'grain': 'ops'}
+                             for f in (0, 1) for k1 in range(1, n + 1) for k2 in range(k1 + 1, n + 2)]
+                    if sh.tier == 'quick':
+                        pairs = rng.sample(pairs, min(len(pairs), 160))
+                    for st in strategies + pairs:
+                        if sh.time_left() <= 0:
+                            return
+                        run_schedule(sh, w, tok, program, st, 'observer', rebuild_probe=rng.random() < 0.3)
+                        sh.count('observer_race_schedules')
+                finally:
+                    w.discard(tok)
 
 
 def run_schedule(sh, w, tok, program, strategy, tag, rebuild_probe=True):
@@ -230,6 +271,8 @@ def run_shard(sh):
     while time.time() - t0 < t_stress:
         stress(sh, rng)
     complete_layers = 0
+    if sh.idx % 4 == 3:
+        run_observer_races(sh, rng)
     while sh.time_left() > 0:
         program, prior, T, parents = gen_scenario(rng)
         with Scratch('t') as sc:
